@@ -536,7 +536,9 @@ type Budget struct {
 	Workers       int
 }
 
-var hugeLens = []uint64{1 << 16, 1 << 20, 1 << 24, 1 << 26, math.MaxInt32, math.MaxUint32, 1 << 32, 1 << 48, 1 << 62, math.MaxInt64, math.MaxUint64}
+// hugeLens feeds the (unmetered) random mutation phase: values that a missing
+// bound turns into a panic or an immediate failure rather than a multi-GiB allocation.
+var hugeLens = []uint64{1 << 16, 1 << 18, math.MaxUint32, 1 << 48, 1 << 62, math.MaxInt64, math.MaxUint64}
 
 // mutate returns a randomly damaged copy of enc.
 func mutate(rng *rand.Rand, enc []byte) []byte {
@@ -563,7 +565,7 @@ func mutate(rng *rand.Rand, enc []byte) []byte {
 		case k == 6: // overwrite 4 bytes with a huge big-endian length
 			if len(out) >= 4 {
 				i := rng.IntN(len(out) - 3)
-				binary.BigEndian.PutUint32(out[i:], []uint32{0xffffffff, 0x7fffffff, 0x00ffffff, 0x80000000, 0x0000ffff}[rng.IntN(5)])
+				binary.BigEndian.PutUint32(out[i:], []uint32{0xffffffff, 0x7fffffff, 0x80000000, 0x0000ffff, 0x0003ffff}[rng.IntN(5)])
 			}
 		default: // duplicate a slice of itself (repeats fields/entries)
 			i := rng.IntN(len(out))
@@ -577,32 +579,46 @@ func mutate(rng *rand.Rand, enc []byte) []byte {
 	return out
 }
 
+// hostileSweep is the ascending list of declared lengths written over every
+// offset.  Ascending, and swept value-major, so that a missing bound is first
+// met with a length whose allocation is large enough to be metered (tens of MiB
+// to a few GiB) before lengths that can only crash the process are tried.
+var hostileUvarints = []uint64{1 << 20, 1 << 24, math.MaxUint32, 1 << 62, math.MaxUint64}
+var hostileBE32 = []uint32{0x00100000, 0x01000000, 0xffffffff}
+
 // hostileVariants calls fn with enc where a huge declared length has been
-// written at every offset, as a uvarint splice and as a 4-byte big-endian
-// overwrite.
-func hostileVariants(enc []byte, maxOffsets int, fn func(kind string, in []byte)) {
+// written at every offset (at most maxOffsets, evenly spread): as a uvarint
+// splice over one byte, as a 4-byte big-endian overwrite and as 0xffff.  fn
+// returns false to stop the sweep.
+func hostileVariants(enc []byte, maxOffsets int, fn func(kind string, in []byte) bool) {
 	step := 1
 	if len(enc) > maxOffsets {
 		step = len(enc)/maxOffsets + 1
 	}
-	for i := 0; i < len(enc); i += step {
-		for _, h := range hugeLens {
-			v := binary.AppendUvarint(nil, h)
+	for _, h := range hostileUvarints {
+		v := binary.AppendUvarint(nil, h)
+		for i := 0; i < len(enc); i += step {
 			in := make([]byte, 0, len(enc)+len(v))
 			in = append(append(append(in, enc[:i]...), v...), enc[i+1:]...)
-			fn("uvarint", in)
-		}
-		if i+4 <= len(enc) {
-			for _, h := range []uint32{0xffffffff, 0x7fffffff, 0x01000000, 0x00100000} {
-				in := append([]byte{}, enc...)
-				binary.BigEndian.PutUint32(in[i:], h)
-				fn("be32", in)
+			if !fn("uvarint", in) {
+				return
 			}
 		}
-		if i+2 <= len(enc) {
+	}
+	for _, h := range hostileBE32 {
+		for i := 0; i+4 <= len(enc); i += step {
 			in := append([]byte{}, enc...)
-			in[i], in[i+1] = 0xff, 0xff
-			fn("be16", in)
+			binary.BigEndian.PutUint32(in[i:], h)
+			if !fn("be32", in) {
+				return
+			}
+		}
+	}
+	for i := 0; i+2 <= len(enc); i += step {
+		in := append([]byte{}, enc...)
+		in[i], in[i+1] = 0xff, 0xff
+		if !fn("be16", in) {
+			return
 		}
 	}
 }
@@ -644,7 +660,33 @@ func Drive(r *verifkit.Run, codecs []Codec, b Budget) {
 	}
 	r.Note("codecs_covered", names)
 
-	// Phase A (parallel over codecs): round-trip, truncation, mutation, random.
+	defer func() {
+		var sigs []string
+		seenSigs.Range(func(k, _ any) bool { sigs = append(sigs, k.(string)); return true })
+		sort.Strings(sigs)
+		if len(sigs) > 0 {
+			r.Note("violation_signatures", sigs)
+		}
+	}()
+
+	// Phase 1 (serial, allocation-metered): hostile declared lengths.  Runs
+	// first: a codec that allocates without bound is reported here and is then
+	// spared the unmetered random phases (which would only thrash memory).
+	poisoned := make([]bool, len(codecs))
+	func() {
+		memMu.Lock()
+		defer memMu.Unlock()
+		for ci := range codecs {
+			if r.Skip(ci) {
+				continue
+			}
+			r.BeginCase(ci, "hostile-lengths "+codecs[ci].Name)
+			poisoned[ci] = hostileCodec(r, ci, codecs[ci], b)
+		}
+	}()
+
+	// Phase 2 (parallel over codecs): round-trip, truncation, mutation, random.
+	r.BeginCase(len(codecs), "round-trip/truncation/mutation (parallel over codecs)")
 	var wg sync.WaitGroup
 	sem := make(chan struct{}, b.Workers)
 	for ci := range codecs {
@@ -656,30 +698,15 @@ func Drive(r *verifkit.Run, codecs []Codec, b Budget) {
 		go func(ci int) {
 			defer wg.Done()
 			defer func() { <-sem }()
-			driveCodec(r, ci, codecs[ci], b)
+			bb := b
+			if poisoned[ci] {
+				bb.MutationsPer, bb.RandomInputs = 0, 0
+				r.Count("skipped_random_phases_after_alloc_violation."+codecs[ci].Name, 1)
+			}
+			driveCodec(r, ci, codecs[ci], bb)
 		}(ci)
 	}
 	wg.Wait()
-
-	defer func() {
-		var sigs []string
-		seenSigs.Range(func(k, _ any) bool { sigs = append(sigs, k.(string)); return true })
-		sort.Strings(sigs)
-		if len(sigs) > 0 {
-			r.Note("violation_signatures", sigs)
-		}
-	}()
-
-	// Phase B (serial, allocation-metered): hostile declared lengths.
-	memMu.Lock()
-	defer memMu.Unlock()
-	for ci := range codecs {
-		if r.Skip(ci) {
-			continue
-		}
-		r.BeginCase(ci, "hostile-lengths "+codecs[ci].Name)
-		hostileCodec(r, ci, codecs[ci], b)
-	}
 }
 
 func weight(c Codec, n int) int {
@@ -843,11 +870,18 @@ func driveCodec(r *verifkit.Run, ci int, c Codec, b Budget) {
 	}
 }
 
-func hostileCodec(r *verifkit.Run, ci int, c Codec, b Budget) {
+// hostileCodec runs the metered huge-length sweep; it returns true when the
+// codec was seen allocating beyond AllocBound in one call (the sweep stops
+// there).
+func hostileCodec(r *verifkit.Run, ci int, c Codec, b Budget) (poisoned bool) {
 	rng := r.Rand(27, uint64(ci), 2)
-	const batch = 48
+	const batch = 16
 	nv := weight(c, b.HostileValues)
-	for i := 0; i < nv; i++ {
+	offs := b.HostileOffs
+	if offs <= 0 {
+		offs = 160
+	}
+	for i := 0; i < nv && !poisoned; i++ {
 		var cs Case
 		var ok bool
 		for tries := 0; tries < 20 && !ok; tries++ {
@@ -860,18 +894,19 @@ func hostileCodec(r *verifkit.Run, ci int, c Codec, b Budget) {
 			continue
 		}
 		var pending [][]byte
-		flush := func() {
+		// flush decodes the pending inputs under one allocation measurement and
+		// returns false once a single call is seen above the bound.
+		flush := func() bool {
 			if len(pending) == 0 {
-				return
+				return true
 			}
 			ins := pending
 			pending = nil
-			run := func(list [][]byte) (panicked bool) {
-				for _, in := range list {
+			d := allocOf(func() {
+				for _, in := range ins {
 					in := in
 					var err error
 					if r.Guard("decode-hostile-length:"+c.Name, map[string]any{"in": hexCap(in, 320)}, func() { err = c.Decode(in) }) {
-						panicked = true
 						continue
 					}
 					if err != nil {
@@ -880,13 +915,11 @@ func hostileCodec(r *verifkit.Run, ci int, c Codec, b Budget) {
 						r.Count("hostile.decoded."+c.Name, 1)
 					}
 				}
-				return
-			}
-			d := allocOf(func() { run(ins) })
+			})
 			r.Eval(len(ins))
 			r.Max("hostile.max_batch_alloc_bytes."+c.Name, int(d))
 			if d <= AllocBound {
-				return
+				return true
 			}
 			// attribute to single inputs
 			for _, in := range ins {
@@ -897,23 +930,25 @@ func hostileCodec(r *verifkit.Run, ci int, c Codec, b Budget) {
 				})
 				if one > AllocBound {
 					Violate(r, "alloc-unbounded:"+c.Name, map[string]any{"input_len": len(in), "alloc_bytes": one, "bound": AllocBound, "in": hexCap(in, 320), "decode_err": fmt.Sprint(err)})
-					return
+					return false
 				}
 			}
+			return true
 		}
-		offs := b.HostileOffs
-		if offs <= 0 {
-			offs = 160
-		}
-		hostileVariants(cs.Enc, offs, func(kind string, in []byte) {
+		hostileVariants(cs.Enc, offs, func(kind string, in []byte) bool {
 			pending = append(pending, in)
-			if len(pending) >= batch {
-				flush()
+			if len(pending) >= batch && !flush() {
+				poisoned = true
+				return false
 			}
+			return true
 		})
-		flush()
+		if !poisoned && !flush() {
+			poisoned = true
+		}
 		r.Nontrivial(c.Name + "|hostile|" + lenClass(len(cs.Enc)))
 	}
+	return poisoned
 }
 
 func hexCap(b []byte, max int) string {
